@@ -84,19 +84,19 @@ Section C02.
 
   (** uniform composition inside its range: a listed composition gets [op old fraction]; an unlisted
       one is cleared by "replace" and left untouched by every other operation *)
-  Theorem C02_composition_listed : forall sph (q : @query F) mn mx o comps fracs c f old,
+  Theorem C02_composition_listed : forall tape sph (q : @query F) mn mx o comps fracs c f old t,
     in_range (ds_min mn) (ds_max mx) (q_depth q) = true ->
     in_range (dsl sph q mn) (dsl sph q mx) (q_depth q) = true ->
     find_comp comps fracs c = Some f ->
-    comp_eval sph q (CUniform mn mx o comps fracs) c old = apply_op o old f.
+    comp_eval tape sph q (CUniform mn mx o comps fracs) c (old, t) = (apply_op o old f, t).
   Proof. intros * H1 H2 H3. cbn [comp_eval]. now rewrite H1, H2, H3. Qed.
 
-  Theorem C02_composition_unlisted : forall sph (q : @query F) mn mx o comps fracs c old,
+  Theorem C02_composition_unlisted : forall tape sph (q : @query F) mn mx o comps fracs c old t,
     in_range (ds_min mn) (ds_max mx) (q_depth q) = true ->
     in_range (dsl sph q mn) (dsl sph q mx) (q_depth q) = true ->
     find_comp comps fracs c = None ->
-    comp_eval sph q (CUniform mn mx o comps fracs) c old =
-    match o with OReplace => f0 | _ => old end.
+    comp_eval tape sph q (CUniform mn mx o comps fracs) c (old, t) =
+    (match o with OReplace => f0 | _ => old end, t).
   Proof. intros * H1 H2 H3. cbn [comp_eval]. now rewrite H1, H2, H3. Qed.
 
   (** a stack of models is the left fold of their operations *)
@@ -106,10 +106,10 @@ Section C02.
   Proof. intros. rewrite fold_left_app. reflexivity. Qed.
 
   (** a feature without models of a kind leaves temperature, composition and grains as they were *)
-  Theorem C02_no_models : forall g sph (a : @area_feature F) (q : @query F) t blk c k,
-    (af_temp a = [] -> length blk = 1 -> fst (area_paint g sph a q PTemp t blk) = blk) /\
-    (af_comp a = [] -> length blk = 1 -> fst (area_paint g sph a q (PComp c) t blk) = blk) /\
-    (af_grains a = [] -> fst (area_paint g sph a q (PGrains c k) t blk) = blk).
+  Theorem C02_no_models : forall g tape sph (a : @area_feature F) (q : @query F) t blk c k,
+    (af_temp a = [] -> length blk = 1 -> fst (area_paint g tape sph a q PTemp t blk) = blk) /\
+    (af_comp a = [] -> length blk = 1 -> fst (area_paint g tape sph a q (PComp c) t blk) = blk) /\
+    (af_grains a = [] -> fst (area_paint g tape sph a q (PGrains c k) t blk) = blk).
   Proof.
     intros. repeat split; intros H; unfold area_paint; rewrite H; cbn [fold_left fst]; try reflexivity;
       intros L; destruct blk as [|x [|y l]]; try discriminate; reflexivity.
